@@ -29,6 +29,9 @@ Items under #[cfg(test)], #[test] and #[cfg(wac_verif)] are skipped (not part of
 
 Anything lexically/structurally unparseable makes the translator exit non-zero (reported by ./check as a
 broken tie).  It never guesses.
+
+Environment: VERIF_REPO (repository root, default /repo); HASH_SITES_OUT (output path, default
+coq/theories/gen/HashSites.v; used by tools/props/c16.py to detect a concurrent regeneration of the shared file).
 """
 import hashlib
 import os
@@ -83,6 +86,9 @@ class Tok:
         return self.t
 
 
+RAWSTR = re.compile(r"b?r(#*)\"")
+CHARLIT = re.compile(r"'(\\x[0-9a-fA-F]{2}|\\u\{[0-9a-fA-F_]+\}|\\.|[^\\'\n])'")
+LIFETIME = re.compile(r"'[A-Za-z_][A-Za-z0-9_]*")
 IDENT = re.compile(r"(?:r#)?[A-Za-z_][A-Za-z0-9_]*")
 NUM = re.compile(r"[0-9][0-9A-Za-z_]*(?:\.[0-9][0-9A-Za-z_]*)?")
 
@@ -114,7 +120,7 @@ def lex(rel, src):
                 raise Bad(f"{rel}:{line}: unterminated block comment")
             i = j; continue
         # raw strings / byte strings
-        m = re.match(r"b?r(#*)\"", src[i:])
+        m = RAWSTR.match(src, i) if c in "br" else None
         if m:
             hashes = m.group(1)
             end = src.find('"' + hashes, i + len(m.group(0)))
@@ -131,10 +137,10 @@ def lex(rel, src):
             toks.append(Tok("str", src[i:j + 1], line)); line += src.count("\n", i, j + 1); i = j + 1; continue
         if c == "'" or (c == "b" and src.startswith("b'", i)):
             k = i + (1 if c == "b" else 0)
-            m = re.match(r"'(\\x[0-9a-fA-F]{2}|\\u\{[0-9a-fA-F_]+\}|\\.|[^\\'\n])'", src[k:])
+            m = CHARLIT.match(src, k)
             if m:
                 toks.append(Tok("chr", src[i:k + len(m.group(0))], line)); i = k + len(m.group(0)); continue
-            m = re.match(r"'[A-Za-z_][A-Za-z0-9_]*", src[k:])
+            m = LIFETIME.match(src, k)
             if m and c == "'":
                 toks.append(Tok("life", m.group(0), line)); i += len(m.group(0)); continue
             raise Bad(f"{rel}:{line}: cannot lex quote")
@@ -222,6 +228,8 @@ class FileInfo:
         self.variants = {}     # variant name -> list of payload types (tuple variants)
         self.fns = []          # dict(name, sig=(a,b), body=(a,b), self_ty, nested=[(a,b)])
         self.aliases = set()
+        self.names = set(BASE_HASH)
+        self.hash_fns = set()  # functions of this file whose return type mentions a hash container
         self.index_outputs = {}  # T -> {X} from `impl Index<..> for T { type Output = X; }`
         self.derives = {}      # type name -> derive list
         self.variant_owner = {}
@@ -497,6 +505,8 @@ def parse_items(fi, a, b, self_ty, outer_fn, names):
                     k = match_close(rel, toks, k)
                 k += 1
             qual = "::".join(x for x in (self_ty if not outer_fn else None, outer_fn, name) if x)
+            if mentions_hash(toks[pe + 1:k], names):
+                fi.hash_fns.add(name)
             if toks[k].t == ";":
                 if mentions_hash(toks[i:k], names):
                     fi.fns.append(dict(name=qual, params=(j + 1, pe), ret=(pe + 1, k), body=None, self_ty=self_ty, nested=[]))
@@ -563,13 +573,15 @@ def find_nested(fi, f, a, b, self_ty, qual, names):
 class World:
     """all files; struct/field tables for receiver typing"""
 
-    def __init__(self, files, names):
-        self.files, self.names = files, names
+    def __init__(self, files):
+        self.files = files
+        self.names_of = {fi.rel: fi.names for fi in files}
+        self.hash_fns = set().union(*[fi.hash_fns for fi in files]) if files else set()
         self.by_field = {}     # field -> list of (rel, struct, hashy)
         for fi in files:
             for s, fl in fi.structs.items():
                 for fn_, ty in fl.items():
-                    self.by_field.setdefault(fn_, []).append((fi.rel, s, mentions_hash(ty, names)))
+                    self.by_field.setdefault(fn_, []).append((fi.rel, s, mentions_hash(ty, fi.names)))
         self.index_outputs = {}
         for fi in files:
             for t, outs in fi.index_outputs.items():
@@ -579,7 +591,7 @@ class World:
         self.hash_variants = {}
         for fi in files:
             for v, tys in fi.variants.items():
-                hs = [mentions_hash(ty, names) for ty in tys]
+                hs = [mentions_hash(ty, fi.names) for ty in tys]
                 if any(hs):
                     self.hash_variants.setdefault(v, []).append((fi.rel, hs))
 
@@ -631,12 +643,13 @@ HASH, NOT, AMBIG, UNKNOWN = "RHash", "NOT", "RAmbiguous", "UNKNOWN"
 class FnScan:
     def __init__(self, world, fi, f):
         self.w, self.fi, self.f = world, fi, f
-        self.rel, self.toks, self.names = fi.rel, fi.toks, world.names
+        self.rel, self.toks, self.names = fi.rel, fi.toks, fi.names
         self.hashy = {}        # local name -> reason
         self.typed = {}        # local name -> type tokens (non-hash annotated)
         self.iters = {}        # local name -> receiver text (bound to an iterator over a hash place)
         self.sites = []
         self.explained = set() # token indexes of hash-type mentions that are accounted for
+        self.returns_hash = False
 
     def in_nested(self, i):
         return any(a <= i < b for a, b in self.f["nested"])
@@ -672,7 +685,7 @@ class FnScan:
                     continue
                 known = True
                 ty = tbl[s]
-                if mentions_hash(ty, self.names):
+                if mentions_hash(ty, self.w.names_of[drel]):
                     hits.append(True)
                 else:
                     hits.append(False)
@@ -848,7 +861,7 @@ class FnScan:
         for k in range(ra, rb):
             if toks[k].k == "id" and toks[k].t in self.names:
                 self.explained.add(k)
-                self.sites_ret = True
+                self.returns_hash = True
 
     def init_is_hash_place(self, a, b):
         """tokens a..b (exclusive) = `&`/`&mut`/`*` + pure place [+ .clone()/.to_owned()/.borrow()...]"""
@@ -940,6 +953,8 @@ class FnScan:
                     why = "local of inferred type (Default::default())"
                 elif init and self.init_is_hash_place(init_a, init_b):
                     why = "copy/borrow of a hash place"
+                elif init and not ty and self.hash_call_end(init_a, init_b):
+                    why = "returned by " + self.hash_call_end(init_a, init_b) + "()"
                 if why:
                     for x in range(j, init_b):
                         if toks[x].k == "id" and toks[x].t in self.names:
@@ -948,6 +963,8 @@ class FnScan:
                         self.hashy[ids[0]] = why
                     else:
                         self.add_site(i, text(pat)[:60], "binding", "RUnrecognised", "hash type bound by a complex let pattern")
+                elif not simple and self.destructure(i + 1, j):
+                    pass
                 elif simple and ty:
                     self.typed[ids[0]] = self.w.elem_types(self.rel, ty)
                 elif simple and init:
@@ -958,6 +975,65 @@ class FnScan:
                 i = j
                 continue
             i += 1
+
+    def destructure(self, a, b):
+        """`Path::Struct { f, g: x, ref h, .. }` in toks[a:b]: variables bound to hash-typed fields become hash locals"""
+        toks = self.toks
+        k = a
+        while k + 1 < b and toks[k].k == "id" and toks[k + 1].t == "::":
+            k += 2
+        if not (k + 1 < b and toks[k].k == "id" and toks[k + 1].t == "{"):
+            return False
+        st = self.w.struct(self.rel, toks[k].t)
+        if st is None:
+            return False
+        drel, tbl = st
+        e = match_close(self.rel, toks, k + 1)
+        x = k + 2
+        found = False
+        while x < e:
+            y, depth = x, 0
+            while y < e and not (toks[y].t == "," and depth == 0 and toks[y].k == "p"):
+                if toks[y].k == "p" and toks[y].t in OPEN:
+                    y = match_close(self.rel, toks, y)
+                y += 1
+            item = [t for t in toks[x:y] if not (t.k == "id" and t.t in ("ref", "mut"))]
+            if item and item[0].k == "id" and item[0].t in tbl and mentions_hash(tbl[item[0].t], self.w.names_of[drel]):
+                found = True
+                if len(item) == 1:
+                    self.hashy[item[0].t] = "destructured field " + toks[k].t + "." + item[0].t
+                elif len(item) == 3 and item[1].t == ":" and item[2].k == "id":
+                    self.hashy[item[2].t] = "destructured field " + toks[k].t + "." + item[0].t
+                else:
+                    self.add_site(x, text(toks[x:y])[:60], "binding", "RUnrecognised", "hash field bound by a nested pattern")
+            x = y + 1
+        return found
+
+    def hash_call_end(self, a, b):
+        """toks[a:b] is `.. name(args)` [`?` | `.unwrap()` | `.expect(..)` | `.clone()`]* with name a hash-returning fn;
+        returns the name or None"""
+        toks = self.toks
+        e = b - 1
+        while e > a:
+            if toks[e].t == "?":
+                e -= 1; continue
+            if toks[e].t == ")":
+                o = e
+                depth = 0
+                while o >= a:
+                    if toks[o].t in CLOSE and toks[o].k == "p":
+                        depth += 1
+                    elif toks[o].t in OPEN and toks[o].k == "p":
+                        depth -= 1
+                        if depth == 0:
+                            break
+                    o -= 1
+                if o - 1 >= a and toks[o - 1].k == "id":
+                    if toks[o - 1].t in ("unwrap", "expect", "clone", "unwrap_or_default") and o - 2 >= a and toks[o - 2].t == ".":
+                        e = o - 3; continue
+                    return toks[o - 1].t if toks[o - 1].t in self.w.hash_fns else None
+            return None
+        return None
 
     def ctor_or_turbofish(self, a, b):
         """the initialiser's hash-type mention is `HashX::..(` at the head, or inside `collect::<..>` / `::<..>`"""
@@ -1008,7 +1084,7 @@ class FnScan:
                     return None
                 drel, tbl = st
                 if s in tbl:
-                    if mentions_hash(tbl[s], self.names):
+                    if mentions_hash(tbl[s], self.w.names_of[drel]):
                         return None
                     nxt += self.w.elem_types(drel, tbl[s])
             cands = nxt
@@ -1067,6 +1143,8 @@ class FnScan:
                 s = j + 1
                 while s < k and toks[s].t in ("&", "mut", "*"):
                     s += 1
+                if s < k and toks[k - 1].t in (")", "?") and self.hash_call_end(s, k):
+                    self.add_site(i, self.hash_call_end(s, k) + "()", "for", HASH)
                 if s < k and all((toks[x].k in ("id", "num")) if (x - s) % 2 == 0 else toks[x].t == "." for x in range(s, k)) \
                         and (k - s) % 2 == 1:
                     res = self.classify_place(s, k - 1, True)
@@ -1075,6 +1153,11 @@ class FnScan:
             # .method(
             if t.t == "." and t.k == "p" and i + 2 < b0 and toks[i + 1].k == "id" and toks[i + 2].t in ("(", "::"):
                 m = toks[i + 1].t
+                if m in OBSERVERS and toks[i - 1].t == ")":
+                    a_, b_, _ = self.stmt_bounds(i)
+                    fn_ = self.hash_call_end(a_, i)
+                    if fn_:
+                        self.add_site(i, fn_ + "()", m, HASH)
                 if m in OBSERVERS:
                     start, complete = self.path_back(i - 1)
                     if start is not None:
@@ -1152,6 +1235,8 @@ class FnScan:
                 prev = toks[j - 1].t if j - 1 >= a0 else ""
                 if prev == ":" and toks[j - 2].k == "id" and self.by_name(toks[j - 2].t) in (HASH, AMBIG):
                     continue
+                if self.returns_hash and i + 1 < b0 and toks[i + 1].t in ("::", "<"):
+                    continue
                 if prev == "=" and toks[j - 2].k in ("id", "num"):
                     s, c = self.path_back(j - 2)
                     if s is not None and self.classify_place(s, j - 2, c) in (HASH, AMBIG):
@@ -1215,27 +1300,45 @@ def main():
     if len(rels) < 20:
         raise Bad(f"only {len(rels)} source files found under {REPO}")
     lexed = {}
-    names = set(BASE_HASH)
+    own_alias = {}      # rel -> {alias name}: `use .. HashMap as X`, `type X = ..HashMap..`
+    type_alias = {}     # rel -> {alias name}: the `type` ones (nameable from other files through `use`)
     for rel in rels:
         try:
             src = open(os.path.join(REPO, rel), encoding="utf-8").read()
         except (OSError, UnicodeDecodeError) as e:
             raise Bad(f"cannot read {rel}: {e}")
         lexed[rel] = lex(rel, src)
-        # aliases first (they extend the set of hash type names everywhere in that file; kept global: conservative)
         tk = lexed[rel]
+        own_alias[rel], type_alias[rel] = set(), set()
         for k in range(len(tk) - 2):
             if tk[k].k == "id" and tk[k].t in BASE_HASH and tk[k + 1].t == "as" and tk[k + 2].k == "id":
-                names.add(tk[k + 2].t)
-            if tk[k].k == "id" and tk[k].t == "type" and tk[k + 1].k == "id":
+                own_alias[rel].add(tk[k + 2].t)
+            if tk[k].k == "id" and tk[k].t == "type" and tk[k + 1].k == "id" and k + 2 < len(tk) and tk[k + 2].t in ("=", "<"):
                 e = k
                 while tk[e].t != ";" and e < len(tk) - 1:
                     e += 1
                 if any(x.k == "id" and x.t in BASE_HASH for x in tk[k + 2:e]):
-                    names.add(tk[k + 1].t)
+                    own_alias[rel].add(tk[k + 1].t)
+                    if k > 0 and (tk[k - 1].t == "pub" or (tk[k - 1].t == ")" and k > 3 and tk[k - 4].t == "pub")):
+                        type_alias[rel].add(tk[k + 1].t)      # only a `pub` alias can be imported elsewhere
+    all_type_aliases = set().union(*type_alias.values()) if type_alias else set()
     files = []
     for rel in rels:
         fi = FileInfo(rel, lexed[rel])
+        fi.names |= own_alias[rel]
+        # a type alias of another file is in scope here only if a `use` item names it
+        tk = fi.toks
+        k = 0
+        while k < len(tk):
+            if tk[k].k == "id" and tk[k].t == "use":
+                e = k
+                while tk[e].t != ";":
+                    e += 1
+                fi.names |= {x.t for x in tk[k:e] if x.k == "id" and x.t in all_type_aliases}
+                if any(x.t == "*" for x in tk[k:e]):
+                    fi.names |= all_type_aliases        # glob import: conservatively everything
+                k = e
+            k += 1
         # whole-file check of bracket balance
         stack = []
         for t in fi.toks:
@@ -1247,22 +1350,23 @@ def main():
                 stack.pop()
         if stack:
             raise Bad(f"{rel}:{stack[-1][1]}: unclosed bracket")
-        parse_items(fi, 0, len(fi.toks), None, None, names)
+        parse_items(fi, 0, len(fi.toks), None, None, fi.names)
         files.append(fi)
-    world = World(files, names)
+    names = set().union(*[fi.names for fi in files])
+    world = World(files)
     sites, bindings = [], []
     nfn = 0
     for fi in files:
         for s, fl in fi.structs.items():
             for fn_, ty in fl.items():
-                if mentions_hash(ty, names):
+                if mentions_hash(ty, fi.names):
                     bindings.append((fi.rel, s, fn_, "field", text(ty)))
         for v, tys in fi.variants.items():
             for k, ty in enumerate(tys):
-                if mentions_hash(ty, names):
+                if mentions_hash(ty, fi.names):
                     bindings.append((fi.rel, v, str(k), "variant payload", text(ty)))
         for s, fl in fi.structs.items():
-            hf = sorted(fn_ for fn_, ty in fl.items() if mentions_hash(ty, names))
+            hf = sorted(fn_ for fn_, ty in fl.items() if mentions_hash(ty, fi.names))
             owner = fi.variant_owner.get(s, s)
             for d in sorted(set(fi.derives.get(owner, [])) & {"Debug", "Serialize", "Display"}):
                 for fn_ in hf:
@@ -1272,7 +1376,7 @@ def main():
         for v, tys in fi.variants.items():
             owner = fi.variant_owner.get(v, v)
             for k, ty in enumerate(tys):
-                if mentions_hash(ty, names):
+                if mentions_hash(ty, fi.names):
                     for d in sorted(set(fi.derives.get(owner, [])) & {"Debug", "Serialize", "Display"}):
                         sites.append(dict(file=fi.rel, fn="<type " + owner + ">", recv=v + "." + str(k), obs="derive(" + d + ")", res=HASH,
                                           stmt="#[derive(" + d + ")] on " + owner + "; hand-written impls for it: " +
